@@ -78,7 +78,7 @@ def trace_upto(lines, op, cfgname, seed, nops, variant):
             out.append(l)
         elif l.startswith("T ") and not l.startswith("T chk") and cur <= op:
             out.append(l)
-    return "\n".join(out[-300:])
+    return "\n".join(out if len(out) <= 300 else out[:2] + ["# ... (%d lines omitted)" % (len(out) - 299)] + out[-297:])   # the command line and CFG stay
 
 
 def giveback_text(f):
